@@ -5,6 +5,7 @@ use std::fmt::Write as _;
 pub mod c01;
 pub mod c04;
 pub mod c09;
+pub mod c15;
 pub mod common;
 pub mod profiles;
 
